@@ -111,6 +111,14 @@ def check_range(acc, pendulum, z, f, span, sign, mode, unit, n, end_zone=None):
         direction = 1
     else:
         iv = pendulum.Interval(a, b)
+        if z != "date" and end_zone is None and n % 3 == 1:
+            # the same interval obtained by subtraction with a NATIVE datetime (same fields, tzinfo and fold) as left or right operand
+            import datetime as dt_
+            if n % 2:
+                iv = dt_.datetime(*obs.fields(b), tzinfo=b.tzinfo, fold=b.fold) - a
+            else:
+                iv = b - dt_.datetime(*obs.fields(a), tzinfo=a.tzinfo, fold=a.fold)
+            case["via"] = "native-operand"
         s_f, s_i, e_i = f, ia, ib
         direction = 1 if ib >= ia else -1
     if z == "date" and unit in FIXED_US:
